@@ -18,6 +18,14 @@ pub const ENCODERS: [Enc; 7] = [Enc::AuxCf, Enc::AuxAdm, Enc::AuxCo, Enc::ExpCf,
 
 pub struct Encodings;
 
+/// The framework to validate, and optionally another framework that the SAME encoder object
+/// encodes first (the solvers reuse one encoder object for every connected component).
+#[derive(Clone, Debug, PartialEq, Eq, Hash, serde::Serialize, serde::Deserialize)]
+pub struct EncCase {
+    pub gc: GraphCase,
+    pub warmup: Option<crate::gen::AbsGraph>,
+}
+
 fn family(fams: &Fams, e: Enc) -> Vec<u32> {
     match base_of(e) {
         "cf" => fams.cf.clone(),
@@ -28,8 +36,26 @@ fn family(fams: &Fams, e: Enc) -> Vec<u32> {
 }
 
 impl Encodings {
-    fn run_generic<T: LabelType>(&self, af: &AAFramework<T>, labels: &[T], case: &GraphCase, rec: &mut Rec) -> CheckResult {
+    fn run_generic<T: LabelType>(&self, af: &AAFramework<T>, labels: &[T], ecase: &EncCase, rec: &mut Rec) -> CheckResult {
+        let case = &ecase.gc;
         let n = case.g.n;
+        // the warm-up framework, in the same label type
+        let warm: Option<AAFramework<T>> = ecase.warmup.as_ref().map(|w| {
+            let mut set = crustabri::aa::ArgumentSet::new_with_labels(&[] as &[T]);
+            // reuse the case's labels, then as many further ones as needed are not available generically:
+            // the warm-up is limited to the number of labels of the case (>= 1 needed)
+            let k = w.n.min(labels.len());
+            for l in labels.iter().take(k) {
+                set.new_argument(l.clone());
+            }
+            let mut waf = AAFramework::new_with_argument_set(set);
+            for (a, b) in &w.att {
+                if (*a as usize) < k && (*b as usize) < k {
+                    let _ = waf.new_attack(&labels[*a as usize], &labels[*b as usize]);
+                }
+            }
+            waf
+        });
         let g = G::new(n, &case.g.att_usize());
         let fams = Fams::new(&g);
         let full = g.full();
@@ -45,6 +71,22 @@ impl Encodings {
                 }
                 let sig = format!("C10/{}/{}", enc.name(), if with_range { "with-range" } else { "plain" });
                 let e = encoder::<T>(enc);
+                if let Some(waf) = &warm {
+                    if enc == Enc::ExpCo && ecase.warmup.as_ref().map_or(false, |w| exp_cost(w, false) > EXP_LIMIT) {
+                        continue;
+                    }
+                    let mut throwaway = sat::default_solver();
+                    let r = guard(|| {
+                        if with_range {
+                            e.encode_constraints_and_range(waf, throwaway.as_mut())
+                        } else {
+                            e.encode_constraints(waf, throwaway.as_mut())
+                        }
+                    });
+                    if let Err(p) = r {
+                        return Err(Failure::new(format!("{}/encoder-panic-on-warm-up", sig), p));
+                    }
+                }
                 let shared = Shared::recording(usize::MAX);
                 let mut rec_solver = satwrap::wrap(&shared, sat::default_solver());
                 let r = guard(|| {
@@ -106,7 +148,7 @@ impl Encodings {
                 fam.sort();
                 let in_fam = |s: u32| fam.binary_search(&s).is_ok();
                 if fam.len() >= 2 && many_attackers {
-                    if rec.nontrivial(&(case.g.canonical(), case.pres.kind(), enc, with_range)) {
+                    if rec.nontrivial(&(case.g.canonical(), case.pres.kind(), enc, with_range, &ecase.warmup)) {
                         rec.sample_sized(clauses.len(), || {
                             json!({"case": case, "encoder": enc.name(), "with_range": with_range, "n_vars": nv,
                                    "n_clauses": clauses.len(), "family_size": fam.len(),
@@ -203,7 +245,7 @@ impl Encodings {
 }
 
 impl Prop for Encodings {
-    type Case = GraphCase;
+    type Case = EncCase;
     fn id(&self) -> &'static str {
         "C10"
     }
@@ -211,7 +253,7 @@ impl Prop for Encodings {
         "translation_validation"
     }
     fn rule(&self) -> String {
-        "Frameworks with compact ids (ArgumentSet::new_with_labels in any declaration order, ICCMA'23 reader with duplicate attack lines, Aspartix reader; <=8 arguments quick, <=10 thorough; plus all digraphs on <=3 / <=4 arguments) x {aux_var cf/adm/complete, exp cf/complete, hybrid complete, default stable} x {plain, with range} (stable: plain only, its range methods are unimplemented by design). The clause list recorded from the encoder is the program; for EVERY subset S of the arguments, CNF + (S as assumptions on the argument literals) is satisfiable on an independent solver instance iff S belongs to the intended family by brute force; assignment_to_extension of each such model is exactly S; with range: a model with range variables = range(S) exists, and each range variable outside range(S) is refuted; literals positive, injective, disjoint from range variables, all variables <= n_vars(). programs = CNFs validated; disagreements_checked = assumption probes compared with the oracle. Non-trivial: the family has >=2 members and some argument has >=2 attackers; distinct = (graph, presentation kind, encoder, range flag).".into()
+        "Frameworks with compact ids (ArgumentSet::new_with_labels in any declaration order, ICCMA'23 reader with duplicate attack lines, Aspartix reader; <=8 arguments quick, <=10 thorough; plus all digraphs on <=3 / <=4 arguments) x {aux_var cf/adm/complete, exp cf/complete, hybrid complete, default stable} x {plain, with range} (stable: plain only, its range methods are unimplemented by design); in 40% of the cases the same encoder object first encodes another generated framework, as the solvers do for successive connected components. The clause list recorded from the encoder is the program; for EVERY subset S of the arguments, CNF + (S as assumptions on the argument literals) is satisfiable on an independent solver instance iff S belongs to the intended family by brute force; assignment_to_extension of each such model is exactly S; with range: a model with range variables = range(S) exists, and each range variable outside range(S) is refuted; literals positive, injective, disjoint from range variables, all variables <= n_vars(). programs = CNFs validated; disagreements_checked = assumption probes compared with the oracle. Non-trivial: the family has >=2 members and some argument has >=2 attackers; distinct = (graph, presentation kind, encoder, range flag).".into()
     }
     fn assumptions(&self) -> Vec<String> {
         vec![
@@ -220,29 +262,35 @@ impl Prop for Encodings {
             "encoders are only fed compact ids, as the solvers do; component extraction inside the solvers is covered indirectly by C01-C04".into(),
         ]
     }
-    fn strategy(&self, tier: Tier) -> BoxedStrategy<GraphCase> {
+    fn strategy(&self, tier: Tier) -> BoxedStrategy<EncCase> {
         let nmax = tier.pick(8, 10);
-        (gen::graph(nmax), gen::pres_compact(nmax)).prop_map(|(g, pres)| GraphCase { g, pres }).boxed()
+        (gen::graph(nmax), gen::pres_compact(nmax), prop_oneof![3 => Just(None), 2 => gen::graph(nmax).prop_map(Some)])
+            .prop_map(|(g, pres, warmup)| EncCase { gc: GraphCase { g, pres }, warmup })
+            .boxed()
     }
     fn n_cases(&self, tier: Tier) -> u32 {
         tier.pick(80_000, 1_500_000)
     }
-    fn enumerated(&self, tier: Tier) -> (Vec<GraphCase>, String) {
+    fn enumerated(&self, tier: Tier) -> (Vec<EncCase>, String) {
         let max = tier.pick(3, 4);
         let mut v = vec![];
         for n in 0..=max {
             for g in gen::all_graphs(n) {
-                v.push(GraphCase { g, pres: Pres::Direct { offset: 0, order_keys: vec![] } });
+                v.push(EncCase { gc: GraphCase { g, pres: Pres::Direct { offset: 0, order_keys: vec![] } }, warmup: None });
             }
         }
         (v, format!("all digraphs on 0..={} arguments x 7 encoders x plain/range", max))
     }
-    fn run(&self, case: &GraphCase, rec: &mut Rec) -> CheckResult {
+    fn run(&self, ecase: &EncCase, rec: &mut Rec) -> CheckResult {
+        let case = &ecase.gc;
         rec.class(&format!("pres-{}", case.pres.kind()));
         rec.class(&format!("n={:02}", case.g.n));
+        if ecase.warmup.is_some() {
+            rec.class("encoder-object-reused-after-another-framework");
+        }
         match build(case) {
-            Built::U(af, labels) => self.run_generic(&af, &labels, case, rec),
-            Built::S(af, labels) => self.run_generic(&af, &labels, case, rec),
+            Built::U(af, labels) => self.run_generic(&af, &labels, ecase, rec),
+            Built::S(af, labels) => self.run_generic(&af, &labels, ecase, rec),
         }
     }
     fn finish_coverage(&self, cov: &mut Map<String, Value>, rec: &Rec) {
